@@ -77,7 +77,7 @@ UNIT = dict(
              params="terminal: &Terminal, mut cum_pays: [f64; 2], outcomes: &HashMap<u64, [f64; 2]>, mut min: f64, mut max: f64, mut one_min: f64, mut one_max: f64",
              ret="out", ret_type="(f64, f64, f64, f64)", exit="(min, max, one_min, one_max)",
              obligation="C15.V.gambit.constant_sum_leaf", rules=["R18", "R3"],
-             body_subst=[(r"for \(cum, out\) in cum_pays\s*\.iter_mut\(\)\s*\.zip\((outcomes\.get\(&terminal\.outcome\(\)\)\.unwrap\(\))\)\s*\{\s*\*cum \+= \*out;?\s*\}",
+             body_subst=[(r"for \(cum, out\) in cum_pays\s*\.iter_mut\(\)\s*\.zip\((outcomes\.get\(&terminal\.outcome\(\)\)\.unwrap\(\))\)\s*\{\s*\*cum (?:\+= \*out|= \*cum \+ \*out);?\s*\}",
                           r"__add_outcome(&mut cum_pays, \1);", "R5 element-wise accumulation over a zip of two pairs")],
              entry="""broadcast use fl; broadcast use ideal;
 proof { ax_obeys(); ax_rv_lits(); assume(outcomes@.contains_key(terminal.outcome_view())); } // every outcome number of the file is in the table (first traversal)
@@ -137,7 +137,7 @@ let ghost c0 = cum_pays; let ghost min0 = min; let ghost max0 = max; let ghost o
              as_fn="get_global_info__chance_carries", generics="<'a>",
              params="chance: &GChance, mut cum_pays: [f64; 2], outcomes: &HashMap<u64, [f64; 2]>, queue: &mut Vec<(&'a Node<'a>, [f64; 2])>",
              obligation="C15.V.gambit.constant_sum_interior", rules=[],
-             body_subst=[(r"for \(cum, out\) in cum_pays\s*\.iter_mut\(\)\s*\.zip\((outcomes\.get\(&chance\.outcome\(\)\)\.unwrap\(\))\)\s*\{\s*\*cum \+= \*out;?\s*\}",
+             body_subst=[(r"for \(cum, out\) in cum_pays\s*\.iter_mut\(\)\s*\.zip\((outcomes\.get\(&chance\.outcome\(\)\)\.unwrap\(\))\)\s*\{\s*\*cum (?:\+= \*out|= \*cum \+ \*out);?\s*\}",
                           r"__add_outcome(&mut cum_pays, \1);", "R5 element-wise accumulation over a zip of two pairs"),
                          (r"queue\.extend\(chance\.actions\(\)\.iter\(\)\.map\(\|\(_, _, next\)\| \(next, cum_pays\)\)\);", "__queue_children(queue, chance, cum_pays);", "R5 every child queued with the running payoffs")],
              entry="""broadcast use fl; broadcast use ideal;
@@ -152,7 +152,7 @@ let ghost c0 = cum_pays;""",
              as_fn="get_global_info__player_carries", generics="<'a>",
              params="player: &GPlayer, mut cum_pays: [f64; 2], outcomes: &HashMap<u64, [f64; 2]>, queue: &mut Vec<(&'a Node<'a>, [f64; 2])>",
              obligation="C15.V.gambit.constant_sum_interior", rules=[],
-             body_subst=[(r"for \(cum, out\) in cum_pays\s*\.iter_mut\(\)\s*\.zip\((outcomes\.get\(&player\.outcome\(\)\)\.unwrap\(\))\)\s*\{\s*\*cum \+= \*out;?\s*\}",
+             body_subst=[(r"for \(cum, out\) in cum_pays\s*\.iter_mut\(\)\s*\.zip\((outcomes\.get\(&player\.outcome\(\)\)\.unwrap\(\))\)\s*\{\s*\*cum (?:\+= \*out|= \*cum \+ \*out);?\s*\}",
                           r"__add_outcome(&mut cum_pays, \1);", "R5 element-wise accumulation over a zip of two pairs"),
                          (r"queue\.extend\(player\.actions\(\)\.iter\(\)\.map\(\|\(_, next\)\| \(next, cum_pays\)\)\);", "__queue_children(queue, player, cum_pays);", "R5 every child queued with the running payoffs")],
              entry="""broadcast use fl; broadcast use ideal;
